@@ -144,7 +144,7 @@ class UInterp(mirsym.Interp):
             return cont(st, mptr(args[0].root, args[0].path, None))
         if n.endswith('Arguments::from_str') or n.endswith('Arguments::new_const'):
             return cont(st, Opaque('fmt-args'))
-        if 'panicking::' in n:
+        if 'panicking::' in n or n in ('panic', 'panic_fmt', 'panic_display', 'panic_explicit'):
             st.trace.append('library panics (' + n.split('::')[-1] + ')')
             if unw is None:
                 raise PathEnd('unwind')
@@ -277,6 +277,10 @@ class UInterp(mirsym.Interp):
             return s.drop_value(st, inner[idx], Ptr(ptr.root, ptr.path + (0,)), depth, cont, unw)
         if re.match(r'^[A-Z]$', ty) or ty.startswith('{closure'):
             return cont(st)      # user value: its own destructor is outside the model
+        leafty = ty.split('<')[0].split('::')[-1]
+        cands = [f for f in s.fns if f.name.split('::')[-1] == 'drop' and f.params and re.search(r'&mut (\w+::)*' + re.escape(leafty) + r'\b', f.params[0][1])]
+        if len(cands) == 1:
+            return s.call_fn(st, cands[0], [ptr], depth, lambda st2, r: cont(st2), unw)
         raise Unsupported(f'drop glue for {ty}')
 
     # ------------------------------------------------------------------ control flow with unwind edges
@@ -590,6 +594,29 @@ def run_api(fns, consts, api):
         results.append({'api': name, 'fn': fn.name, 'exit': res[0], 'steps': st2.trace, 'violation': viol,
                         'pc': str(simplify(And(*st2.pc)))})
     return results
+
+
+def check_abort_nostd(mir_text):
+    """no_std `abort()`: every path must end in process termination (a panic raised while a panic is already
+    unwinding), never by returning or by letting a single, catchable panic propagate."""
+    fns, consts = mirsym.parse_mir(mir_text)
+    cands = [f for f in fns if f.name == 'abort' and not f.params]
+    if len(cands) != 1:
+        raise Unsupported(f'no_std abort() found {len(cands)} times in the MIR dump')
+    I = UInterp(fns, consts)
+    st = UState()
+    exits = []
+    def cont(st2, rv):
+        exits.append(('return', st2.trace))
+    def unw(st2):
+        exits.append(('unwind', st2.trace))
+    try:
+        I.call_fn(st, cands[0], [], 0, cont, unw)
+    except PathEnd as e:
+        exits.append((e.why, st.trace))
+    for st2, r in I.paths:
+        exits.append((r[1], st2.trace))
+    return exits
 
 
 def run_all(mir_text):
